@@ -122,38 +122,20 @@ Proof.
 Qed.
 
 (* ---- Truncate: write permission on the file (EACCES) ---------------------------------------------------------- *)
-(* the kernel removes the set-id bits of a file a non-privileged user truncates; MemFS keeps them (listed) *)
-Definition privs_kept (u : user) (m : meta) : Prop := drop_privs u m = m.
-
-Lemma privs_kept_admin (u : user) (m : meta) : us_admin u = true -> privs_kept u m.
-Proof. intros H. unfold privs_kept, drop_privs. rewrite H. reflexivity. Qed.
-
-Lemma privs_kept_nosetid (u : user) (m : meta) :
-  has (m_mode m) MODE_SETUID = false -> has (m_mode m) MODE_SETGID = false -> privs_kept u m.
-Proof.
-  intros H1 H2. unfold privs_kept, drop_privs. destruct (us_admin u); [reflexivity|].
-  rewrite (ldiff_has_false _ _ H1), (ldiff_has_false _ _ H2). destruct m, (has _ 8); reflexivity.
-Qed.
-
-Definition file_privs_kept (s : fsys) (sv : sview) (cs : list str) : Prop :=
-  forall par kind name n d k i m, klookup s sv false true (abs_path cs) = WNode par kind name n ->
-    get (f_heap s) n = Some (NFile d k i m) -> privs_kept (v_user (sv_view sv)) m.
-
+(* both sides remove the set-id bits of a file a non-privileged user truncates ([drop_privs]) *)
 Theorem dstep_truncate (s : fsys) (sv : sview) (cs : list str) (size : Z) :
-  dac_hyps s sv -> path_ok s sv SlEval cs -> file_privs_kept s sv cs ->
+  dac_hyps s sv -> path_ok s sv SlEval cs ->
   (fst (truncate s (sv_view sv) (abs_path cs) size), proj_res Linux (snd (truncate s (sv_view sv) (abs_path cs) size)))
   = k_truncate s sv (abs_path cs) size.
 Proof.
-  intros H Hp Hpk. pose proof (dresolve s sv SlEval cs H Hp) as R. destruct Hp as (_ & _ & Hnf).
+  intros H Hp. pose proof (dresolve s sv SlEval cs H Hp) as R. destruct Hp as (_ & _ & Hnf).
   unfold truncate, k_truncate, win. rewrite (dh_os _ _ H). cbn [ostype_eqb negb]. rewrite andb_true_r.
   destruct (Z.ltb size 0) eqn:Hsz; [reflexivity|].
-  change (follow_of SlEval) with true in R. unfold file_privs_kept in Hpk.
+  change (follow_of SlEval) with true in R.
   destruct (klookup s sv false true (abs_path cs)) as [par kind name n|par name md| |e]; cbn [walk_rel] in R.
   - destruct R as (R1 & R2 & R3 & _). rewrite R2, R1. cbn [is_file_exists negb].
-    pose proof (fun d k i m => Hpk par kind name n d k i m eq_refl) as Hpk'.
     destruct (get (f_heap s) n) as [[ch m|dt k i m|t m]|] eqn:Hg; [reflexivity| |reflexivity|reflexivity].
     rewrite (check_permission_node _ _ _ OpenWrite _ Hg). cbn [node_meta]. change (N.land OpenWrite 7) with 2%N.
-    rewrite (Hpk' _ _ _ _ eq_refl).
     destruct (kperm (f_heap s) n 2 (v_user (sv_view sv))); reflexivity.
   - destruct R as (R1 & R2 & _). rewrite R1. reflexivity.
   - destruct R.
@@ -453,7 +435,8 @@ Definition oe_impl (s : fsys) (v : view) (vi : nat) (name : str) (om : N) (c : n
       else
         let d1 := if has om OpenTruncate then [] else d in
         let at_ := 0%Z in
-        (with_heap s (upd h c (NFile d1 k i m)), inr (new_handle c vi name at_ om))
+        let m1 := if has om OpenTruncate then drop_privs (v_user v) m else m in
+        (with_heap s (upd h c (NFile d1 k i m1)), inr (new_handle c vi name at_ om))
   | Some (NDir _ m) =>
       if has om OpenCreateExcl then (s, inl (RFail EFileExists))
       else if has om OpenWrite || has om OpenCreate || has om OpenTruncate then (s, inl (RFail EIsADirectory))
@@ -568,11 +551,10 @@ Proof. reflexivity. Qed.
 Lemma oe_sim (s : fsys) (v : view) (vi : nat) (name : str) (flag : N) (c : nat) :
   get (f_heap s) c <> None -> (forall t m, get (f_heap s) c <> Some (NSym t m)) ->
   has flag O_CREATE && has flag O_EXCL = false ->
-  (has flag O_TRUNC = true -> forall d k i m, get (f_heap s) c = Some (NFile d k i m) -> privs_kept (v_user v) m) ->
   open_sim (oe_impl s v vi name (to_open_mode flag) c)
            (oe_spec (v_user v) (has flag O_CREATE) (has flag O_TRUNC) (acc_mask (N.land flag 3) (has flag O_TRUNC)) s c false).
 Proof.
-  intros Hv Hns Hex Hpk.
+  intros Hv Hns Hex.
   destruct (om_facts flag) as (M1 & M2 & M3 & M4 & M5 & M6 & M7). cbv zeta in *.
   unfold oe_impl, oe_spec. cbv zeta. rewrite M4, Hex, M5, M3, M7.
   destruct (get (f_heap s) c) as [[ch m|d k i m|t m]|] eqn:Hg; [| |exfalso; exact (Hns t m eq_refl)|congruence].
@@ -589,7 +571,7 @@ Proof.
     cbn [negb andb]. rewrite (check_permission_node _ _ _ _ _ Hg).
     destruct (has flag O_TRUNC) eqn:Htr.
     + rewrite M2. destruct (kperm (f_heap s) c (acc_mask (N.land flag 3) true) (v_user v)); cbn [negb]; [|split; reflexivity].
-      cbn [andb]. rewrite (Hpk eq_refl _ _ _ _ eq_refl). split; reflexivity.
+      cbn [andb]. split; reflexivity.
     + rewrite M1. destruct (kperm (f_heap s) c (acc_mask (N.land flag 3) false) (v_user v)); cbn [negb]; [|split; reflexivity].
       cbn [andb]. rewrite (upd_same _ _ _ Hg), with_heap_same. split; reflexivity.
 Qed.
@@ -610,10 +592,9 @@ Qed.
 
 Theorem dstep_open_nocreat (s : fsys) (sv : sview) (cs : list str) (flag perm : N) (vi : nat) :
   dac_hyps s sv -> path_ok s sv SlEval cs -> has flag O_CREATE = false ->
-  (has flag O_TRUNC = true -> file_privs_kept s sv cs) ->
   open_sim (open_file s (sv_view sv) vi (abs_path cs) flag perm) (k_open s sv (abs_path cs) flag perm).
 Proof.
-  intros H Hp Hcr Hpk. pose proof (dresolve s sv SlEval cs H Hp) as R. destruct Hp as (Hg & _ & Hnf).
+  intros H Hp Hcr. pose proof (dresolve s sv SlEval cs H Hp) as R. destruct Hp as (Hg & _ & Hnf).
   destruct (om_facts flag) as (M1 & M2 & M3 & M4 & M5 & M6 & M7). cbv zeta in *.
   rewrite Hcr in M3, M4. cbn [andb] in M4.
   unfold abs_path at 1. rewrite open_file_eq. fold (abs_path cs). rewrite k_open_eq. cbv zeta.
@@ -622,8 +603,7 @@ Proof.
   pose proof (dresolve_nosym s sv SlEval cs) as Hns.
   destruct (klookup s sv false true (abs_path cs)) as [par kind name n|par name md| |e] eqn:HK; cbn [walk_rel] in R.
   - destruct R as (R1 & R2 & R3 & _ & R4 & _). rewrite R1, R2, (R4 eq_refl). cbn [is_file_exists is_not_exist negb andb orb].
-    rewrite <- Hcr at 1. apply oe_sim; [exact R3|exact (Hns n H eq_refl R1 R2)|rewrite Hcr; reflexivity|].
-    intros Htr d k i m Hgm. exact (Hpk Htr _ _ _ _ _ _ _ _ HK Hgm).
+    rewrite <- Hcr at 1. apply oe_sim; [exact R3|exact (Hns n H eq_refl R1 R2)|rewrite Hcr; reflexivity].
   - destruct R as (R1 & R2 & R3 & R4). destruct (at_name_views _ _ _ _ _ _ (R4 eq_refl)) as (V1 & V2 & _).
     rewrite R1, V2. cbn [is_file_exists is_not_exist negb andb orb]. split; reflexivity.
   - destruct R.
@@ -647,11 +627,10 @@ Qed.
 Theorem dstep_open_creat (s : fsys) (sv : sview) (w : list str) (cl : str) (flag perm : N) (vi : nat) :
   dac_hyps s sv -> path_ok s sv SlEval (w ++ [cl]) ->
   has flag O_CREATE = true -> has flag O_EXCL = false ->
-  (has flag O_TRUNC = true -> file_privs_kept s sv (w ++ [cl])) ->
   let p := abs_path (w ++ [cl]) in
   open_sim (open_file s (sv_view sv) vi p flag perm) (k_open s sv p flag perm).
 Proof.
-  intros H Hp Hcr Hex Hpk p. pose proof (dresolve s sv SlEval (w ++ [cl]) H Hp) as R. destruct Hp as (Hg & _ & Hnf).
+  intros H Hp Hcr Hex p. pose proof (dresolve s sv SlEval (w ++ [cl]) H Hp) as R. destruct Hp as (Hg & _ & Hnf).
   destruct (om_facts flag) as (M1 & M2 & M3 & M4 & M5 & M6 & M7). cbv zeta in *.
   rewrite Hcr in M3. rewrite Hcr, Hex in M4. cbn [andb] in M4.
   unfold p. unfold abs_path at 1. rewrite open_file_eq. fold (abs_path (w ++ [cl])). rewrite k_open_eq. cbv zeta.
@@ -664,8 +643,7 @@ Proof.
   - cbv iota.
     destruct (klookup s sv false true (abs_path (w ++ [cl]))) as [par kind name n|par name md| |e] eqn:HK; cbn [walk_rel] in R.
     + destruct R as (R1 & R2 & R3 & _ & R4 & _). rewrite R1, R2, (R4 eq_refl). cbn [is_file_exists is_not_exist negb andb orb].
-      rewrite <- Hcr at 1. apply oe_sim; [exact R3|exact (Hns n H eq_refl R1 R2)|rewrite Hex; apply andb_false_r|].
-      intros Htr d k i m Hgm. exact (Hpk Htr _ _ _ _ _ _ _ _ HK Hgm).
+      rewrite <- Hcr at 1. apply oe_sim; [exact R3|exact (Hns n H eq_refl R1 R2)|rewrite Hex; apply andb_false_r].
     + destruct R as (R1 & R2 & R3 & R4). destruct (at_name_views _ _ _ _ _ _ (R4 eq_refl)) as (V1 & V2 & _).
       destruct Hfin as (F1 & _).
       rewrite R1, V2, R3, V1, F1. cbn [is_file_exists is_not_exist negb andb orb].
@@ -1021,10 +999,9 @@ Qed.
 
 (* ---- the step theorem at the level of worlds, any user ----------------------------------------------------------- *)
 Definition open_covered (s : fsys) (sv : sview) (p : str) (flag : N) : Prop :=
-  ((has flag O_CREATE = false /\ exists cs, p = abs_path cs /\ path_ok s sv SlEval cs
-      /\ (has flag O_TRUNC = true -> file_privs_kept s sv cs))
+  ((has flag O_CREATE = false /\ exists cs, p = abs_path cs /\ path_ok s sv SlEval cs)
    \/ (has flag O_CREATE = true /\ has flag O_EXCL = false /\ exists w cl, p = abs_path (w ++ [cl])
-         /\ path_ok s sv SlEval (w ++ [cl]) /\ (has flag O_TRUNC = true -> file_privs_kept s sv (w ++ [cl])))
+         /\ path_ok s sv SlEval (w ++ [cl]))
    \/ (has flag O_CREATE = true /\ has flag O_EXCL = true /\ exists w cl, p = abs_path (w ++ [cl])
          /\ path_ok s sv SlLstat (w ++ [cl]) /\ excl_existing_accessible s sv (w ++ [cl]) flag)).
 
@@ -1038,7 +1015,7 @@ Definition dcovered (phl : bool) (vi : nat) (sw : sworld) (c : call) : Prop :=
   | CReadlink vi' p => vi' = vi /\ exists cs, p = abs_path cs /\ path_ok s sv SlLstat cs
   | CChtimes vi' p => vi' = vi /\ exists cs, p = abs_path cs /\ path_ok s sv SlEval cs
   | CChmod vi' p mode => vi' = vi /\ exists cs, p = abs_path cs /\ path_ok s sv SlEval cs
-  | CTruncate vi' p _ => vi' = vi /\ exists cs, p = abs_path cs /\ path_ok s sv SlEval cs /\ file_privs_kept s sv cs
+  | CTruncate vi' p _ => vi' = vi /\ exists cs, p = abs_path cs /\ path_ok s sv SlEval cs
   | CMkdir vi' p _ =>
       vi' = vi /\ exists w cl, p = abs_path (w ++ [cl]) /\ path_ok s sv SlLstat (w ++ [cl])
   | CSymlink vi' t p =>
@@ -1075,7 +1052,8 @@ Proof.
           else
             let d1 := if has om OpenTruncate then [] else d in
             let at_ := 0%Z in
-            (with_heap s (upd (f_heap s) c (NFile d1 k i m)), inr (new_handle c vi (x :: name) at_ om))
+            let m1 := if has om OpenTruncate then drop_privs (v_user v) m else m in
+            (with_heap s (upd (f_heap s) c (NFile d1 k i m1)), inr (new_handle c vi (x :: name) at_ om))
       | Some (NDir _ m) =>
           if has om OpenCreateExcl then (s, inl (RFail EFileExists))
           else if has om OpenWrite || has om OpenCreate || has om OpenTruncate then (s, inl (RFail EIsADirectory))
@@ -1134,7 +1112,7 @@ Proof.
   - (* OpenFile *)
     destruct Hc as (-> & Hoc).
     assert (OS : open_sim (open_file (w_fs w) (sv_view (sw_sv sw)) vi p flag perm) (k_open (sw_fs sw) (sw_sv sw) p flag perm)).
-    { rewrite <- Hfs. destruct Hoc as [(Hcr & cs & -> & Hp & Hpk)|[(Hcr & Hex & ww & cl & -> & Hp & Hpk)|(Hcr & Hex & ww & cl & -> & Hp & Hea)]].
+    { rewrite <- Hfs. destruct Hoc as [(Hcr & cs & -> & Hp)|[(Hcr & Hex & ww & cl & -> & Hp)|(Hcr & Hex & ww & cl & -> & Hp & Hea)]].
       - apply dstep_open_nocreat; assumption.
       - apply dstep_open_creat; assumption.
       - apply dstep_open_excl; assumption. }
@@ -1179,11 +1157,11 @@ Proof.
     + reflexivity.
     + rewrite <- Hfs, Ep, (dstep_readlink (sw_fs sw) (sw_sv sw) cs H Hp). apply obs_sim_refl.
   - (* Truncate *)
-    destruct Hc as (-> & cs & Ep & Hp & Hpk).
+    destruct Hc as (-> & cs & Ep & Hp).
     apply (dworld_of_lift phl w vi sw Ha _ (truncate (w_fs w) (sv_view (sw_sv sw)) p size) (k_truncate (sw_fs sw) (sw_sv sw) p size)).
     + apply (impl_lift w _ _ (wstep_truncate w vi _ Hv p size)); [left; discriminate|exact I].
     + reflexivity.
-    + rewrite <- Hfs, Ep. exact (dstep_truncate (sw_fs sw) (sw_sv sw) cs size H Hp Hpk).
+    + rewrite <- Hfs, Ep. exact (dstep_truncate (sw_fs sw) (sw_sv sw) cs size H Hp).
   - (* Chmod *)
     destruct Hc as (-> & cs & Ep & Hp).
     apply (dworld_of_lift phl w vi sw Ha _ (chmod (w_fs w) (sv_view (sw_sv sw)) p mode) (k_chmod (sw_fs sw) (sw_sv sw) p mode)).
